@@ -126,12 +126,19 @@ func (p *Profile) GetAttachments() string {
 		return p.Attachments[0]
 	default:
 		res := []string{}
+		quoted := false
 		for _, attachment := range p.Attachments {
+			attachment, ok := unquote(attachment)
+			quoted = quoted || ok
 			if strings.HasPrefix(attachment, "/") {
 				res = append(res, attachment[1:])
 			} else {
 				res = append(res, attachment)
 			}
+		}
+		if quoted {
+			// One quoted word: the quotes of a single alternative cannot stay inside
+			return `"/{` + strings.Join(res, ",") + `}"`
 		}
 		return "/{" + strings.Join(res, ",") + "}"
 	}
